@@ -28,6 +28,7 @@ import (
 	"sync"
 	"time"
 
+	"github.com/krotik/common/sortutil"
 	"github.com/krotik/ecal/engine"
 	"github.com/krotik/ecal/interpreter"
 	"github.com/krotik/ecal/parser"
@@ -259,6 +260,87 @@ func c10RunSinks(hist string, specs []c10Rule) string {
 	return "exec=" + c10Join(c10SinkLog, ".") + " err=" + c10Join(es, ".") + " kids=" + strconv.Itoa(c10SinkKids)
 }
 
+// ---------------------------------------------------------------- Q: sortutil.PriorityQueue directly
+
+// c10Layout turns PriorityQueue.String() ("[ v (p) v (p) ]", slice order of the heap) into "[v:p,v:p]".
+func c10Layout(pq *sortutil.PriorityQueue) string {
+	f := strings.Fields(strings.Trim(pq.String(), "[] "))
+	var out []string
+	for i := 0; i+1 < len(f); i += 2 {
+		out = append(out, f[i]+":"+strings.Trim(f[i+1], "()"))
+	}
+	return "[" + strings.Join(out, ",") + "]"
+}
+
+func c10RunQueue(ops []string) string {
+	pq := sortutil.NewPriorityQueue()
+	every := len(ops) <= 48
+	n := 0
+	var out []string
+	val := func(x interface{}) string {
+		if x == nil {
+			return "n"
+		}
+		return fmt.Sprint(x)
+	}
+	for _, op := range ops {
+		var tok string
+		switch {
+		case strings.HasPrefix(op, "+"):
+			p, _ := strconv.Atoi(op[1:])
+			pq.Push(n, p)
+			n++
+			tok = "L"
+		case op == "-":
+			tok = "p" + val(pq.Pop())
+		case op == "k":
+			tok = "k" + val(pq.Peek())
+		default:
+			pq.Clear()
+			tok = "c"
+		}
+		if every {
+			tok += c10Layout(pq)
+		}
+		out = append(out, tok)
+	}
+	return strings.TrimSpace(strings.Join(out, " ") + " end" + c10Layout(pq))
+}
+
+func c10RandomQueue(g *Gen, nops, nprio int) string {
+	ops := make([]string, 0, nops)
+	size := 0
+	for len(ops) < nops {
+		switch x := g.R.Intn(20); {
+		case x < 11 || (size == 0 && x < 17):
+			p := g.R.Intn(nprio)
+			if g.R.Intn(8) == 0 {
+				p = -1 - g.R.Intn(4)
+			}
+			ops = append(ops, "+"+strconv.Itoa(p))
+			size++
+		case x < 17:
+			ops = append(ops, "-")
+			if size > 0 {
+				size--
+			}
+		case x < 19:
+			ops = append(ops, "k")
+		default:
+			if g.R.Intn(6) == 0 {
+				ops = append(ops, "c")
+				size = 0
+			} else {
+				ops = append(ops, "-")
+				if size > 0 {
+					size--
+				}
+			}
+		}
+	}
+	return "Q " + strings.Join(ops, " ")
+}
+
 // ---------------------------------------------------------------- B: bookkeeping
 
 func c10RunBook(ops []string) string {
@@ -359,6 +441,22 @@ func c10RunCascade(payload string, workers int, roots [][]c10Node) string {
 			}
 		}
 	}
+	// schedule-independent oracle for HighestPriority() inside an action: the own monitor is active,
+	// so the report is at most the own priority and is the priority of some triggering event of that root
+	prioSet := make([]map[int]bool, len(roots))
+	for r, nodes := range roots {
+		prioSet[r] = map[int]bool{}
+		for _, n := range nodes {
+			if n.trig {
+				if n.useRoot {
+					prioSet[r][0] = true
+				} else {
+					prioSet[r][n.prio] = true
+				}
+			}
+		}
+	}
+	hpBad := ""
 	mkEvent := func(r, i int) *engine.Event {
 		kind := "nop"
 		if roots[r][i].trig {
@@ -373,6 +471,9 @@ func c10RunCascade(payload string, workers int, roots [][]c10Node) string {
 			r, i := e.State()["r"].(int), e.State()["n"].(int)
 			hp := m.RootMonitor().HighestPriority()
 			mu.Lock()
+			if (hp > m.Priority() || !prioSet[r][hp]) && hpBad == "" {
+				hpBad = fmt.Sprintf("bad:root%d.node%d:own=%d:reported=%d", r, i, m.Priority(), hp)
+			}
 			started[r] = append(started[r], fmt.Sprintf("%d@%d", i, hp))
 			startedIDs[r] = append(startedIDs[r], i)
 			mu.Unlock()
@@ -446,17 +547,22 @@ func c10RunCascade(payload string, workers int, roots [][]c10Node) string {
 		for i, id := range errIDs {
 			es[i] = strconv.Itoa(id)
 		}
+		end := " end=" + strconv.Itoa(rms[r].HighestPriority())
 		if workers == 1 {
-			res = append(res, c10Join(started[r], ".")+" err="+c10Join(es, "."))
+			res = append(res, c10Join(started[r], ".")+" err="+c10Join(es, ".")+end)
 		} else {
 			sort.Ints(startedIDs[r])
 			ss := make([]string, len(startedIDs[r]))
 			for i, id := range startedIDs[r] {
 				ss[i] = strconv.Itoa(id)
 			}
-			res = append(res, "set="+c10Join(ss, ".")+" err="+c10Join(es, "."))
+			res = append(res, "set="+c10Join(ss, ".")+" err="+c10Join(es, ".")+end)
 		}
 	}
+	if hpBad == "" {
+		hpBad = "ok"
+	}
+	res[len(res)-1] += " hp=" + hpBad
 	if tracing {
 		if len(trace) == 0 {
 			CountRun("trace.no-hook-events")
@@ -583,6 +689,46 @@ func c10RandomBook(g *Gen, maxPrio int, n int) string {
 				return "B " + strings.Join(ops, " ")
 			}
 		}
+	}
+	return "B " + strings.Join(ops, " ")
+}
+
+// c10StressBook: many distinct priorities active at once (a large IntHeap), then a long mix of
+// finishes (RemoveFirst in the middle of the slice) and activations.
+func c10StressBook(g *Gen) string {
+	d := 8 + g.R.Intn(23)
+	perm := make([]int, 64)
+	for i := range perm {
+		perm[i] = i
+	}
+	for i := len(perm) - 1; i > 0; i-- {
+		j := g.R.Intn(i + 1)
+		perm[i], perm[j] = perm[j], perm[i]
+	}
+	var ops []string
+	var active []int // monitor numbers
+	next := 1
+	act := func(p int) {
+		ops = append(ops, fmt.Sprintf("N%d", p), fmt.Sprintf("A%d", next))
+		active = append(active, next)
+		next++
+	}
+	for _, p := range perm[:d] {
+		act(p)
+	}
+	for k := 20 + g.R.Intn(60); k > 0; k-- {
+		if len(active) > 0 && g.R.Intn(5) < 3 {
+			i := g.R.Intn(len(active))
+			ops = append(ops, fmt.Sprintf("F%d", active[i]))
+			active = append(active[:i], active[i+1:]...)
+		} else {
+			act(perm[g.R.Intn(len(perm))])
+		}
+	}
+	for len(active) > 0 {
+		i := g.R.Intn(len(active))
+		ops = append(ops, fmt.Sprintf("F%d", active[i]))
+		active = append(active[:i], active[i+1:]...)
 	}
 	return "B " + strings.Join(ops, " ")
 }
@@ -737,6 +883,34 @@ func init() {
 				g.Count("book random")
 				g.Emit(c10RandomBook(g, 3+g.R.Intn(10), 6+g.R.Intn(40)))
 			}
+			nStress := 1500
+			if g.Thorough() {
+				nStress = 30000
+			}
+			for i := 0; i < nStress; i++ {
+				g.Count("book heap stress (8..30 distinct active priorities)")
+				g.Emit(c10StressBook(g))
+			}
+			// Q: sortutil.PriorityQueue against the heap-slice model: values and slice layout
+			nQ := 1500
+			if g.Thorough() {
+				nQ = 40000
+			}
+			for _, c := range []string{"Q -", "Q k +3 k - -", "Q +0 +-2 - -", "Q +5 +9 +3 +11 +8 +4 - +6 +7 - - - - - - -", "Q +1 +1 c +2 +1 - -"} {
+				g.Count("corpus")
+				g.Emit(c)
+			}
+			for i := 0; i < nQ; i++ {
+				g.Count("priority queue ops")
+				switch {
+				case i%50 == 0:
+					g.Emit(c10RandomQueue(g, 200+g.R.Intn(250), 8+g.R.Intn(30)))
+				case i%3 == 0:
+					g.Emit(c10RandomQueue(g, 4+g.R.Intn(45), 2+g.R.Intn(3)))
+				default:
+					g.Emit(c10RandomQueue(g, 4+g.R.Intn(45), 8+g.R.Intn(12)))
+				}
+			}
 			// K: one worker (exact order), then 2..8 workers (sets + trace)
 			for i := 0; i < nK1; i++ {
 				g.Count("cascade 1 worker")
@@ -776,6 +950,8 @@ func init() {
 				return c10RunSinks(hist, rs)
 			case "B":
 				return c10RunBook(f[1:])
+			case "Q":
+				return c10RunQueue(f[1:])
 			case "K":
 				w, _ := strconv.Atoi(f[1])
 				roots, ok := c10ParseRoots(f[2])
